@@ -1,1 +1,134 @@
-fn main(){ println!("{}", chess::Board::default()); }
+//! Differential-testing harness for the `chess` crate (see /verif/PROTOCOL.md).
+//!
+//!   harness gen <Cxx> <quick|thorough> <seed> <outdir> [--shards N]
+//!   harness replay            (lines on stdin -> recomputed full lines on stdout)
+
+mod enc;
+mod gens;
+mod ops;
+mod programs;
+mod props;
+mod replay;
+mod rng;
+mod sink;
+mod strings;
+mod tables;
+
+use std::io::{BufRead, Write};
+
+fn usage() -> ! {
+    eprintln!("usage: harness gen <C01..C20> <quick|thorough> <seed> <outdir> [--shards N]\n       harness replay < lines");
+    std::process::exit(2);
+}
+
+fn parse_seed(s: &str) -> Option<u64> {
+    if let Some(h) = s.strip_prefix("0x") {
+        u64::from_str_radix(h, 16).ok()
+    } else {
+        s.parse::<u64>().ok()
+    }
+}
+
+fn main() {
+    // a panic inside the library is data: keep stderr quiet
+    std::panic::set_hook(Box::new(|_| {}));
+    let args: Vec<String> = std::env::args().collect();
+    if args.len() < 2 {
+        usage();
+    }
+    match args[1].as_str() {
+        "replay" => {
+            let stdin = std::io::stdin();
+            let stdout = std::io::stdout();
+            let mut out = std::io::BufWriter::new(stdout.lock());
+            for line in stdin.lock().lines() {
+                let line = match line {
+                    Ok(l) => l,
+                    Err(_) => break,
+                };
+                if line.trim().is_empty() {
+                    continue;
+                }
+                let r = enc::guard(|| replay::eval(&line)).unwrap_or_else(|| format!("{} => HARNESS-PANIC", line));
+                if writeln!(out, "{}", r).is_err() {
+                    break;
+                }
+            }
+            let _ = out.flush();
+        }
+        "gen" => {
+            if args.len() < 6 {
+                usage();
+            }
+            let prop = args[2].to_uppercase();
+            let thorough = match args[3].as_str() {
+                "quick" => false,
+                "thorough" => true,
+                _ => usage(),
+            };
+            let seed = match parse_seed(&args[4]) {
+                Some(s) => s,
+                None => usage(),
+            };
+            let outdir = args[5].clone();
+            let mut shards = 16usize;
+            let mut i = 6;
+            while i < args.len() {
+                if args[i] == "--shards" && i + 1 < args.len() {
+                    shards = args[i + 1].parse().unwrap_or(16).max(1);
+                    i += 2;
+                } else {
+                    usage();
+                }
+            }
+            let t0 = std::time::Instant::now();
+            let corpus = gens::load_corpus();
+            let sink = match sink::Sink::new(&outdir, shards) {
+                Ok(s) => s,
+                Err(e) => {
+                    eprintln!("harness: {}", e);
+                    std::process::exit(1);
+                }
+            };
+            // the property id is mixed into the seed so that properties sharing generators do not
+            // see identical streams
+            let pnum: u64 = prop[1..].parse().unwrap_or(0);
+            let mut cx = props::Ctx {
+                rng: rng::Rng::new(seed ^ pnum.wrapping_mul(0xA076_1D64_78BD_642F)),
+                sink,
+                corpus,
+                thorough,
+            };
+            cx.sink.add("corpus_fens_accepted", cx.corpus.fens.len() as u64);
+            cx.sink.add("corpus_fens_rejected", cx.corpus.rejected as u64);
+            cx.sink.add("corpus_mirrored_roots", cx.corpus.derived as u64);
+            let known = match enc::guard(|| props::run(&prop, &mut cx)) {
+                Some(k) => k,
+                None => {
+                    eprintln!("harness: internal panic while generating {}", prop);
+                    std::process::exit(3);
+                }
+            };
+            if !known {
+                eprintln!("harness: unknown property {}", prop);
+                std::process::exit(2);
+            }
+            let lines = cx.sink.lines;
+            let header = [
+                ("property", format!("\"{}\"", prop)),
+                ("tier", format!("\"{}\"", args[3])),
+                ("seed", seed.to_string()),
+                ("shards", shards.to_string()),
+                ("bmi2", (tables::has_bmi() as u8).to_string()),
+                ("checked_build", (cfg!(debug_assertions) as u8).to_string()),
+                ("gen_seconds", format!("{:.3}", t0.elapsed().as_secs_f64())),
+            ];
+            if let Err(e) = cx.sink.finish(&outdir, &header) {
+                eprintln!("harness: {}", e);
+                std::process::exit(1);
+            }
+            println!("{} {} seed={} lines={} seconds={:.2}", prop, args[3], seed, lines, t0.elapsed().as_secs_f64());
+        }
+        _ => usage(),
+    }
+}
